@@ -39,8 +39,22 @@ def key_fragid(repo, tier="quick"):
     tmpl = M[3][1] if len(M[3]) > 1 else dict(M[4]).get("target_graph")
     molecule = M[3][0] if M[3] else None
 
-    def is_new_fine_node(k):
+    def is_new_fine_node(k, depth=0):
         """k == correspondence[n] with n ranging over all nodes of the merged template"""
+        # ... or a node of a fresh graph that was filled with exactly those nodes (the per-node copy of the fragment)
+        e = elem_of(k)
+        if e and e[0] == "elem" and depth == 0:
+            coll = strip_wrappers(e[1])
+            G = coll[1] if coll[0] == "attr" and coll[2] == "nodes" else coll
+            gc = is_call(G, "networkx.Graph")
+            if gc is not None and not gc[0] and not gc[1]:
+                adds = [(c, n) for c, n in fl.calls() if isinstance(c.func, ast.Attribute) and c.func.attr in ("add_node", "add_edge", "add_nodes_from", "add_edges_from")
+                        and fl.canon(c.func.value, n) == G]
+                node_adds = [(c, n) for c, n in adds if c.func.attr == "add_node"]
+                if node_adds and all(c.func.attr in ("add_node", "add_edge") for c, n in adds) and \
+                        all(c.args and is_new_fine_node(fl.canon(c.args[0], n), 1) for c, n in node_adds) and \
+                        all(len(c.args) >= 2 and all(fl.canon(a, n)[0] == "sub" and fl.canon(a, n)[1] == M for a in c.args[:2]) for c, n in adds if c.func.attr == "add_edge"):
+                    return True
         if k[0] == "sub" and k[1] == M:
             e = elem_of(k[2])
             if e and e[0] in ("elem", "key") and strip_wrappers(e[1]) in (("attr", tmpl, "nodes"), tmpl, M):
@@ -206,6 +220,24 @@ def prov_annotate_lookup(repo, tier="quick"):
                 mk = elem_of(comb[0][0][2])
                 r = comb[0][1] if len(comb[0]) > 1 else dict(a[1][2][4]).get("r")
                 pair_ok = bool(mk and strip_wrappers(mk[1]) in (("attr", meta, "nodes"), meta)) and r == ("const", 2)
+        if not pair_ok and a[0] in ("iter", "sub") and b[0] in ("iter", "sub"):
+            # the same pairs from two loops over the member list: all ordered pairs (an edge added twice is one edge), or
+            # `for i, a in enumerate(L): for b in L[i + 1:]`
+            def members(t):
+                t = as_lookup(strip_wrappers(t, slices=False))
+                if t[0] == "sub" and t[1] == index:
+                    mk_ = elem_of(t[2])
+                    return bool(mk_ and strip_wrappers(mk_[1]) in (("attr", meta, "nodes"), meta))
+                return False
+            ea_, eb_ = elem_of(a), elem_of(b)
+            if ea_ and eb_ and ea_[0] == "elem" and eb_[0] == "elem":
+                if members(ea_[1]) and members(eb_[1]) and a != b:
+                    pair_ok = True
+                elif members(ea_[1]) and a[0] == "sub" and b[0] == "iter":
+                    rest = strip_wrappers(b[2], slices=False)
+                    if rest[0] == "sub" and rest[2][0] == "slice" and members(rest[1]) and rest[2][2] is None and rest[2][3] is None and \
+                            rest[2][1] == ("binop", "+", ("sub", a[1], ("const", 0)), ("const", 1)):
+                        pair_ok = True
         guard_ok = False
         for test, pol, gid in guards_of(fi, nid):
             t = fl.canon(test, gid)
@@ -401,6 +433,16 @@ def key_rdkit(repo, tier="quick"):
             e = elem_of(k) if k else None
             if e and e[0] == "index":
                 same_atom = True
+            if e and e[0] == "elem" and adds and not same_atom:
+                # a node key of the graph being built, whose node keys are all RDKit atom indices; the position goes to that node
+                coll = strip_wrappers(e[1])
+                Gt = coll[1] if coll[0] == "attr" and coll[2] == "nodes" else coll
+                keys_idx = all(c.args and method_call(fl.canon(c.args[0], fi.cfg.owner[id(c)]), "GetIdx") is not None and
+                               fl.canon(c.func.value, fi.cfg.owner[id(c)]) == Gt for c in adds)
+                stores = [n for n in fi.cfg.nodes if n.kind == "stmt" and isinstance(n.ast, ast.Assign) and isinstance(n.ast.targets[0], ast.Subscript)
+                          and node_attr(fl.canon(n.ast.targets[0], n.id)) and node_attr(fl.canon(n.ast.targets[0], n.id))[2] == ("const", "position")]
+                same_atom = keys_idx and bool(stores) and all(node_attr(fl.canon(n.ast.targets[0], n.id))[1] == k and
+                                                              node_attr(fl.canon(n.ast.targets[0], n.id))[0] == Gt for n in stores)
             (obs.append(ob_ok(oid, fi, call, construct="conf.GetAtomPosition(atom.GetIdx())", instance="conformer",
                               reason="each node gets the position of its own atom")) if same_atom else
              obs.append(ob_fail(oid, fi, call, construct="conf.GetAtomPosition(%s)" % (show(k) if k else ""), instance="conformer",
@@ -453,6 +495,13 @@ def norm_bead(repo, tier="quick"):
                         ek = elem_of(na[1])
                         if ek and ek[0] == "key" and ek[1] == ew[1]:
                             acc = (n, al[0], strip_wrappers(ew[1]))
+                    # parallel sequences of one dict: for i, atom in enumerate(list(W)): ... list(W.values())[i]
+                    if na and na[0] == aa and na[2] == ("const", "position") and acc is None and w[0] == "sub":
+                        mvw = method_call(strip_wrappers(w[1]), "values")
+                        en_, ei_ = elem_of(na[1]), elem_of(w[2])
+                        if mvw and not mvw[2] and en_ and ei_ and en_[0] == "elem" and ei_[0] == "index" and na[1][0] == "sub" and w[2][0] == "sub" and \
+                                na[1][1] == w[2][1] and strip_wrappers(en_[1]) == strip_wrappers(mvw[0]) == strip_wrappers(ei_[1]):
+                            acc = (n, al[0], strip_wrappers(mvw[0]))
                     # for atom, weight in fragment.nodes(data='weight'[, default=1]): the same pairs, read off the per-node graph directly
                     if na and na[0] == aa and na[2] == ("const", "position") and acc is None and w[0] == "sub" and w[2] == ("const", 1) and w[1][0] == "iter" \
                             and na[1] == ("sub", w[1], ("const", 0)):
@@ -668,6 +717,12 @@ def norm_scale(repo, tier="quick"):
         c = is_call(t, "len")
         if c and c[0] and strip_wrappers(c[0][0]) == ("attr", graph, "edges"):
             return True
+        # the length of an unfiltered list comprehension over the edges
+        x = strip_wrappers(c[0][0]) if c and c[0] else None
+        if x and x[0] == "comp" and x[1] == "list" and len(x[4]) == 1 and not x[4][0][2]:
+            e = elem_of(x[4][0][1])
+            if e and e[0] == "elem" and strip_wrappers(e[1]) == ("attr", graph, "edges"):
+                return True
         m = method_call(t, "number_of_edges")
         return bool(m and m[0] == graph)
 
